@@ -71,7 +71,9 @@ def run_case(ctx, case):
             if errkind(r) != "ValueError":
                 rec.violation("reduction failed with %s instead of ValueError" % r[1], case)
             if mode == "forced" and t <= min(U.count(k) for k in knots) - 1 and t <= p:
-                rec.violation("tolerance=None reduction did not succeed", case, observed=r[1])
+                # known finding: for a rational curve the refitted denominator may change sign; the weights are then refused
+                key = "forced-rational-refit-denominator-changes-sign" if (W is not None and errkind(r) == "ValueError" and errkind(m) == "ValueError") else None
+                rec.violation("tolerance=None reduction did not succeed", case, observed=r[1], finding_key=key)
             return
         if mode == "reduce" and W is None:
             d = drv.call("rf.sqdist", *curve_args(*start), *curve_args(*after))
@@ -100,6 +102,10 @@ def run_case(ctx, case):
 
 def run(ctx):
     rng = ctx["rng"]
+    # corpus: the witness of the recorded finding (KNOWN_FINDINGS.txt) runs first, every time
+    run_case(ctx, ser(dict(kind="degree", U=[F(0)] * 3 + [F(11, 20)] * 3 + [F(1)] * 3,
+                           P=[(F(-3, 7), F(6)), (F(1, 2), F(-10)), (F(7), F(2, 3)), (F(-3), F(7, 5)), (F(9, 2), F(3, 4)), (F(0), F(7, 3))],
+                           W=[F(4), F(2, 3), F(4, 5), F(5, 2), F(1), F(1, 5)], t=1, mode="forced")))
     for i in range(budget(ctx, 70, 900)):
         mode = rng.choice(["elevate", "elevate", "setter", "roundtrip", "roundtrip", "roundtrip", "reduce", "forced", "invalid"])
         U, P, W = rand_curve(rng, pmax=3, nintmax=2, force_zero=(i % 6 == 0))
